@@ -168,8 +168,52 @@ func (ex *Exec) dispatch(fr *Frame, st *State, site ssa.Instruction, fn *ssa.Fun
 	full := ssaFullName(fn)
 	if idx, ok := callbackModels[full]; ok && idx < len(args) {
 		ex.assumed["model "+full+": invokes its function argument any number of times and has no other effect on the program heap; its results are unconstrained"] = true
+		// expressions the callback declares stable across a successful invocation
+		type stab struct {
+			text string
+			pre  Val
+			env  func(*State) *SpecEnv
+		}
+		var stabs []stab
+		if cfv, ok := args[idx].(*FuncVal); ok {
+			if ccon := ex.contractFor(cfv.Fn); ccon != nil && len(ccon.CallbackStable) > 0 {
+				mk := func(s *State) *SpecEnv {
+					sf, sb := ex.cfn, ex.cbind
+					ex.cfn, ex.cbind = cfv.Fn, cfv.Bindings
+					defer func() { ex.cfn, ex.cbind = sf, sb }()
+					return ex.calleeEnv(cfv.Fn, ccon, nil, s, s, nil)
+				}
+				pre0 := st.clone()
+				for _, e := range ccon.CallbackStable {
+					sf, sb := ex.cfn, ex.cbind
+					ex.cfn, ex.cbind = cfv.Fn, cfv.Bindings
+					v := mk(pre0).evalAny(e)
+					ex.cfn, ex.cbind = sf, sb
+					stabs = append(stabs, stab{e, v, mk})
+				}
+			}
+		}
 		ex.callbackEffect(fr, st, site, args[idx])
-		return ex.freshResults(st, fn.Signature, "lib")
+		rets := ex.freshResults(st, fn.Signature, "lib")
+		if len(stabs) > 0 && len(rets) > 0 {
+			if e, ok := rets[len(rets)-1].(*Agg); ok && len(e.F) == 2 && isErrorType(fn.Signature.Results().At(len(rets)-1).Type()) {
+				ex.assumed["model "+full+": returns a nil error only if every invocation of its callback returned nil (so what the callback leaves unchanged when it succeeds is unchanged by the whole call)"] = true
+				for _, sb := range stabs {
+					sf, sbd := ex.cfn, ex.cbind
+					cfv := args[idx].(*FuncVal)
+					ex.cfn, ex.cbind = cfv.Fn, cfv.Bindings
+					post := sb.env(st).evalAny(sb.text)
+					ex.cfn, ex.cbind = sf, sbd
+					a, b := flatten(sb.pre, nil), flatten(post, nil)
+					for k := range a {
+						if k < len(b) {
+							ex.fact(st, Implies(Eq(tm(e.F[0]), IntT(0)), SameVal(b[k], a[k])))
+						}
+					}
+				}
+			}
+		}
+		return rets
 	}
 	if full == "(*text/scanner.Scanner).Scan" && len(args) == 1 {
 		return ex.scannerScan(fr, st, site, fn, args)
@@ -534,7 +578,12 @@ func (ex *Exec) modularCall(fr *Frame, st *State, site ssa.Instruction, fn *ssa.
 			}
 		}
 		if !found {
-			unsupp("calls %s: no such parameter of %s", pn, funcLabel(fn))
+			// not a parameter: an expression over the callee's parameters (a function-valued
+			// field, say), evaluated in the state in front of the call
+			v := ex.calleeEnv(fn, con, args, pre, pre, nil).evalAny(pn)
+			ex.callsAt = pre
+			ex.callbackEffect(fr, st, site, v)
+			ex.callsAt = nil
 		}
 	}
 	rets := ex.freshResults(st, fn.Signature, "r."+fn.Name()+".")
@@ -664,6 +713,27 @@ func (ex *Exec) callbackEffect(fr *Frame, st *State, site ssa.Instruction, f Val
 		}
 	}
 	if !ok {
+		if t, isT := f.(*Term); isT {
+			if same := ex.ownCallsValue(fr, st, t); same != nil {
+				// The callback is (provably or not) one this function itself declares with `calls`:
+				// its effect is accounted for at the call sites of this function, and inside it is
+				// assumed disjoint from what the contract talks about. Otherwise: anything.
+				ex.assumed[fmt.Sprintf("%s: a callback this function declares with `calls` is invoked by its callees too; its footprint is disjoint from the locations the contracts on the way mention (its effect is applied where the outermost function is called)", fr.topFrame().label)] = true
+				if same.Op == "true" {
+					return
+				}
+				ex.note("%s: callback equal to a declared `calls` value only under a condition: heap havoced conditionally", fr.label)
+				hv := st.clone()
+				ex.preservingPrivate(hv, hv.heap.havocAll)
+				keep := st.clone()
+				keep.reach = And(st.reach, same)
+				hv.reach = And(st.reach, Not(same))
+				m := ex.mergeStates([]*State{keep, hv})
+				m.reach = st.reach
+				*st = *m
+				return
+			}
+		}
 		ex.note("%s: callback is an unknown function value: heap havoced", fr.label)
 		ex.preservingPrivate(st, st.heap.havocAll)
 		return
@@ -703,6 +773,66 @@ func (ex *Exec) callbackEffect(fr *Frame, st *State, site ssa.Instruction, f Val
 	}
 	pre := st.clone()
 	ex.applyModifies(st, pre, con.Modifies, func() *SpecEnv { return ex.calleeEnv(fv.Fn, con, args, pre, pre, nil) })
+	for _, pn := range con.Calls {
+		isParam := false
+		for _, p := range fv.Fn.Params {
+			if p.Name() == pn {
+				isParam = true
+			}
+		}
+		if isParam {
+			ex.preservingPrivate(st, st.heap.havocAll)
+			continue
+		}
+		v := ex.calleeEnv(fv.Fn, con, args, pre, pre, nil).evalAny(pn)
+		saved := ex.callsAt
+		ex.callsAt = pre
+		ex.callbackEffect(fr, st, site, v)
+		ex.callsAt = saved
+	}
+}
+
+// ownCallsValue: the condition under which t is the value of one of the `calls` designators of the
+// function being verified (nil if it declares none). Designators that are parameters are compared
+// with their entry values, expressions are evaluated in the current state.
+func (ex *Exec) ownCallsValue(fr *Frame, st *State, t *Term) *Term {
+	top := fr.topFrame()
+	if top.con == nil || len(top.con.Calls) == 0 || ex.spec > 0 {
+		return nil
+	}
+	var alts []*Term
+	for _, pn := range top.con.Calls {
+		var v Val
+		func() {
+			defer func() {
+				if r := recover(); r != nil {
+					if _, ok := r.(unsupported); !ok {
+						panic(r)
+					}
+				}
+			}()
+			at := st
+			if ex.callsAt != nil {
+				// compare in the state the callee's designator was evaluated in (in front of the
+				// call), not after the callee's frame has been applied
+				at = ex.callsAt
+			}
+			v = ex.funcEnv(top, at).evalAny(pn)
+		}()
+		switch x := v.(type) {
+		case *Term:
+			if x == t {
+				return True()
+			}
+			alts = append(alts, Eq(x, t))
+		case *FuncVal:
+			alts = append(alts, Eq(funcValPtr(x), t))
+		}
+	}
+	if len(alts) == 0 {
+		return nil
+	}
+	return Or(alts...)
 }
 
 // applyModifies havocs the locations named by modifies clauses (evaluated in the pre-state).
